@@ -115,6 +115,10 @@ pub struct Program {
     /// percentage of values whose destructor panics (fault injection)
     #[serde(default)]
     pub panicky: u8,
+    /// simulated pointee type of container i (empty: all of one type). Values are made for one
+    /// container type and the interpreter never offers a value of another type to a container.
+    #[serde(default)]
+    pub ctype: Vec<u8>,
 }
 
 #[derive(Clone, Debug, PartialEq, Eq, Serialize, Deserialize)]
@@ -182,6 +186,8 @@ pub struct Profile {
     pub budget: u32,
     /// percent of cases in which a share of all values has a panicking destructor
     pub panicky_cases: u32,
+    /// percent of cases (with at least two containers) whose containers are of two pointee types
+    pub types: u32,
 }
 
 impl Profile {
@@ -230,6 +236,7 @@ impl Profile {
             burst: false,
             budget: 20000,
             panicky_cases: 0,
+            types: 0,
         }
     }
 }
@@ -297,8 +304,8 @@ fn pct(p: u32) -> BoxedStrategy<bool> {
 pub fn program_strategy(p: &Profile) -> BoxedStrategy<Program> {
     let p = p.clone();
     let p2 = p.clone();
-    ((p.threads.0..=p.threads.1), (p.conts.0..=p.conts.1), pct(p.nofast), pct(p.reuse), pct(p.outlive), (pct(p.panicky_cases), prop_oneof![Just(15u8), Just(30u8), Just(60u8)]))
-        .prop_flat_map(move |(nt, nc, nofast, reuse, outlive, (pk, pkpct))| {
+    ((p.threads.0..=p.threads.1), (p.conts.0..=p.conts.1), pct(p.nofast), pct(p.reuse), pct(p.outlive), (pct(p.panicky_cases), prop_oneof![Just(15u8), Just(30u8), Just(60u8)], pct(p.types)))
+        .prop_flat_map(move |(nt, nc, nofast, reuse, outlive, (pk, pkpct, typed))| {
             let p = p2.clone();
             let nt8 = nt as u8;
             let nc8 = nc as u8;
@@ -322,7 +329,8 @@ pub fn program_strategy(p: &Profile) -> BoxedStrategy<Program> {
                 (after, ops, pct(if idx == 0 { 0 } else { p.bequeath }), dtor).prop_map(|(after, ops, bequeath, dtor_ops)| ThreadSpec { after, ops, bequeath, dtor_ops })
             };
             let threads: Vec<_> = (0..nt).map(|i| thread(i).boxed()).collect();
-            (threads, proptest::collection::vec(any::<bool>(), nc), proptest::collection::vec(pct(10), nc)).prop_map(move |(threads, consume, init_null)| Program {
+            let ctype = if typed && nc >= 2 { proptest::collection::vec(0u8..2, nc).boxed() } else { Just(Vec::new()).boxed() };
+            (threads, proptest::collection::vec(any::<bool>(), nc), proptest::collection::vec(pct(10), nc), ctype).prop_map(move |(threads, consume, init_null, ctype)| Program {
                 strat: nofast as u8,
                 ncont: nc8,
                 init_null,
@@ -331,6 +339,7 @@ pub fn program_strategy(p: &Profile) -> BoxedStrategy<Program> {
                 consume,
                 outlive,
                 panicky: if pk { pkpct } else { 0 },
+                ctype,
             })
         })
         .boxed()
@@ -358,10 +367,14 @@ pub fn spec_strategy(p: &Profile, nthreads_hint: usize) -> BoxedStrategy<Spec> {
         let park = prop_oneof![3 => Just(Role::Storage), 2 => Just(Role::FastSlot), 1 => Just(Role::HelpSlot), 2 => Just(Role::Control), 1 => Just(Role::Strong), 1 => Just(Role::ActiveAddr), 2 => Just(Role::ActiveWriters), 1 => Just(Role::InUse)];
         let wake = prop_oneof![3 => Just(Role::ActiveWriters), 2 => Just(Role::Storage), 1 => Just(Role::FastSlot), 2 => Just(Role::Control), 1 => Just(Role::HelpSlot), 2 => Just(Role::InUse)];
         let stall = (0..nth, park, 1u8..4, wake, 1u8..9, 1u8..7).prop_map(|(victim, park_role, park_nth, wake_role, wake_nth, run)| Policy::Stall { victim, park_role, park_nth, wake_role, wake_nth, run });
+        let aba_role = prop_oneof![3 => Just(Role::Control), 2 => Just(Role::FastSlot), 1 => Just(Role::HelpSlot), 2 => Just(Role::InUse), 2 => Just(Role::Storage), 1 => Just(Role::ListHead)];
+        let aba = (0..nth, aba_role, 1u8..4, 1u8..4).prop_map(|(victim, park_role, park_nth, run)| Policy::AbaStall { victim, park_role, park_nth, run });
+        let w_stall = std::env::var("VCHECK_STALL_WEIGHT").ok().and_then(|s| s.parse::<u32>().ok()).unwrap_or(p.w_stall).max(1);
         prop_oneof![
             5 => prop_oneof![Just(16u8), Just(32u8), Just(64u8), Just(128u8)].prop_map(|p| Policy::Rand { p }),
             2 => (1u8..5, 40u16..600).prop_map(|(d, len)| Policy::Pct { d, len }),
-            std::env::var("VCHECK_STALL_WEIGHT").ok().and_then(|s| s.parse::<u32>().ok()).unwrap_or(p.w_stall).max(1) => stall,
+            w_stall => stall,
+            (w_stall / 2).max(1) => aba,
         ]
         .boxed()
     };
@@ -382,5 +395,59 @@ pub fn case_strategy(p: &Profile) -> BoxedStrategy<Case> {
             (Just(prog), spec_strategy(&p2, n))
         })
         .prop_map(|(prog, spec)| Case { prog, spec })
+        .boxed()
+}
+
+
+/// C13 (second part): programs built around one deep scenario instead of free-form ones - the
+/// generation counter of a thread wraps inside a *nested* load (a writer that helps readers loads
+/// on their behalf) while another writer has been stalled, since the very first transaction of
+/// that thread's node, just before handing over its replacement. Roles: thread 1 = A (one fallback
+/// load of container 0, generation preset, then writes to container 1), thread 2 = W (a write to
+/// container 0, the victim of the Stall policy: parked right before the compare-exchange on the
+/// reader's control word, released for 1-3 steps on the n-th later access of the storage), threads
+/// 3.. = readers of container 1 that spend most of their time inside helping transactions.
+/// Everything else (operation kinds, counts, n, which access W parks at, strategy, memory model,
+/// address reuse) is drawn at random.
+pub fn nestwrap_strategy() -> BoxedStrategy<Case> {
+    let a_write = || prop_oneof![3 => Just(Op::Store(1, Val::Fresh)), 2 => Just(Op::Swap(1, Val::Fresh)), 1 => Just(Op::Rcu(1, Nested::None, 0)), 1 => Just(Op::Cas(1, Cur::Loaded, Form::Ref, Val::Fresh))];
+    let w_write = proptest::collection::vec(prop_oneof![3 => Just(Op::Store(0, Val::Fresh)), 2 => Just(Op::Swap(0, Val::Fresh)), 1 => Just(Op::Rcu(0, Nested::None, 0))], 1..7);
+    let reader = || prop_oneof![3 => (3u8..12).prop_map(|n| vec![Op::Hold(1, n)]), 1 => (2usize..7).prop_map(|n| vec![Op::Load(1); n]), 1 => (2u8..8).prop_map(|n| vec![Op::Load(1), Op::Hold(1, n), Op::LoadFull(1)])];
+    let park = prop_oneof![8 => Just(Role::Handover), 1 => Just(Role::SpaceOffer), 1 => Just(Role::Control), 1 => Just(Role::ActiveAddr)];
+    let wake = prop_oneof![5 => Just(Role::Storage), 1 => Just(Role::Control), 1 => Just(Role::HelpSlot)];
+    (
+        (pct(70), any::<bool>(), 0u8..3, proptest::collection::vec(a_write(), 1..3), w_write, any::<bool>(), 1u8..4),
+        (proptest::collection::vec(reader(), 2..4), any::<bool>(), any::<bool>()),
+        (park, 1u8..3, wake, 1u8..40, 1u8..4, any::<u64>(), pct(40), prop_oneof![Just(32u8), Just(64u8), Just(128u8)], pct(65)),
+    )
+        .prop_map(|((nofast, reuse, j, a_writes, w_write, w_pre, a_loads), (readers, consume0, consume1), (park_role, park_nth, wake_role, wake_nth, run, seed, sc, stale, aba))| {
+            let mut a_ops = Vec::new();
+            if !nofast {
+                // default strategy: fill the fast slots first so that every later load of A is a
+                // helping transaction
+                a_ops.push(Op::Hold(1, 8));
+            }
+            // the first transactions on A's node: generations 6, 10, 14 ...
+            a_ops.push(Op::Hold(0, a_loads));
+            a_ops.push(Op::SetGen(j));
+            a_ops.extend(a_writes);
+            let mut w_ops = Vec::new();
+            if w_pre {
+                w_ops.push(Op::Load(1));
+            }
+            w_ops.extend(w_write);
+            let mut threads = vec![ThreadSpec { after: None, ops: Vec::new(), bequeath: false, dtor_ops: Vec::new() }, ThreadSpec { after: None, ops: a_ops, bequeath: false, dtor_ops: Vec::new() }, ThreadSpec { after: None, ops: w_ops, bequeath: false, dtor_ops: Vec::new() }];
+            for r in readers {
+                threads.push(ThreadSpec { after: None, ops: r, bequeath: false, dtor_ops: Vec::new() });
+            }
+            let prog = Program { strat: nofast as u8, ncont: 2, init_null: vec![false, false], reuse, threads, consume: vec![consume0, consume1], outlive: false, panicky: 0, ctype: Vec::new() };
+            let mode = if sc { Mode::SC } else { Mode::M2 };
+            // W is parked right before its compare-exchange on a control word and released when
+            // that word holds the generation W expects once more (ABA adversary), or - the older
+            // formulation - parked after a given access and released after the n-th storage access
+            let policy = if aba { Policy::AbaStall { victim: 2, park_role: Role::Control, park_nth, run } } else { Policy::Stall { victim: 2, park_role, park_nth, wake_role, wake_nth, run } };
+            let spec = Spec { mode, policy, seed, stale: if mode == Mode::SC { 0 } else { stale }, spurious: 8, freeze: None, budget: 20000, decisions: None };
+            Case { prog, spec }
+        })
         .boxed()
 }
